@@ -163,7 +163,7 @@ Proof.
     + exact Q.
     + intros l Hl. rewrite emitted_app in Hl. cbn in Hl. rewrite app_nil_r in Hl. rewrite app_nil_r. exact (E l Hl).
   - (* TSub *)
-    destruct (memN span (t_closed s)) eqn:CL; [|discriminate]. inversion H; subst. clear H.
+    inversion H; subst. clear H.
     split; [split; [exact C|split; [exact R|exact L]]|]. split; [exact Q|].
     intros l Hl. rewrite emitted_app in Hl. cbn in Hl. rewrite app_nil_r in Hl. rewrite app_nil_r. exact (E l Hl).
   - (* TFwd *)
@@ -240,7 +240,7 @@ Proof.
     rewrite app_nil_r, map_app, app_assoc, F. reflexivity.
   - destruct (memN x (t_closed s)); [discriminate|]. inversion ST; subst. cbn [t_logs emitted flat_map logs_of filter app map].
     rewrite !app_nil_r. exact F.
-  - destruct (memN x (t_closed s)); [|discriminate]. inversion ST; subst. cbn [t_logs emitted flat_map logs_of filter app map].
+  - inversion ST; subst. cbn [t_logs emitted flat_map logs_of filter app map].
     rewrite !app_nil_r. exact F.
   - assert (LT : (length (t_logs s) < S (length (t_logs s)))%nat) by lia.
     destruct (fwd_loop_spec (S (length (t_logs s))) s OK LT) as (_ & _ & _ & E & O).
